@@ -84,11 +84,15 @@ pub struct PipePlan {
     /// an hour (a daemonizing command): end-of-file must not wait for it (C08's consequence)
     #[serde(default)]
     pub linger: Option<usize>,
+    /// the last command only takes the first N bytes and exits (`head -c N`): the producers
+    /// upstream must get SIGPIPE/EPIPE and the pipeline must still complete
+    #[serde(default)]
+    pub head_last: Option<usize>,
 }
 
 impl Default for PipePlan {
     fn default() -> Self {
-        PipePlan { stages: vec![], shape: Shape::Chain, stdin: PStdin::Inherit, stdout: PStdout::Inherit, stderr_file: false, term: Term::Join, input_len: 0, missing_stage: None, source_len: 0, early: false, via_clone: false, linger: None }
+        PipePlan { stages: vec![], shape: Shape::Chain, stdin: PStdin::Inherit, stdout: PStdout::Inherit, stderr_file: false, term: Term::Join, input_len: 0, missing_stage: None, source_len: 0, early: false, via_clone: false, linger: None, head_last: None }
     }
 }
 
@@ -123,6 +127,17 @@ pub fn generate(prop: &str, rng: &mut Rng, plan: &mut Plan, _index: u64) {
     if pp.term == Term::Communicate && prop != "C14" && rng.chance(1, 3) {
         pp.linger = Some(rng.below(n as u64) as usize);
     }
+    if prop != "C14" && pp.linger.is_none() && rng.chance(1, 6) {
+        let total = pp.input_len + pp.source_len;
+        if total > 0 {
+            pp.head_last = Some(match rng.below(4) {
+                0 => 1,
+                1 => rng.range(1, 4096) as usize,
+                2 => (total / 2).max(1),
+                _ => rng.range(1, total as u64) as usize,
+            });
+        }
+    }
     let chunk0 = gen_chunk(rng, cap).max(if pp.input_len + pp.source_len > 100_000 { 512 } else { 16 });
     for i in 0..n {
         let tag = (i as u8).wrapping_mul(37).wrapping_add(11);
@@ -134,6 +149,8 @@ pub fn generate(prop: &str, rng: &mut Rng, plan: &mut Plan, _index: u64) {
             ops.push(Op::Write { fd: 2, stream: 60, len: 0, chunk: 1 });
             ops.push(Op::Write { fd: 1, stream: SRC_STREAM, len: pp.source_len, chunk });
             ops.push(Op::ReadAll { fd: 0, chunk: 4096 });
+        } else if let (true, Some(max)) = (i == n - 1, pp.head_last) {
+            ops.push(Op::Head { inp: 0, out: 1, chunk, tag, max });
         } else {
             ops.push(Op::Filter { inp: 0, out: 1, err: 2, chunk, tag, line_every: 1 + rng.below(5) as usize, id: i as u8 });
         }
@@ -250,6 +267,9 @@ fn expected_output(pp: &PipePlan, input: &[u8]) -> Vec<u8> {
         for b in data.iter_mut() {
             *b = filter_byte(*b, st.tag);
         }
+    }
+    if let Some(max) = pp.head_last {
+        data.truncate(max);
     }
     data
 }
